@@ -298,6 +298,9 @@ SummaryRow(M, sol, rng, r, m) ==
 OnPlusSide(row) == row.flux > 0 \/ (row.flux = 0 /\ row.factor > 0)
 ModelRows(M, sol, rng) == {SummaryRow(M, sol, rng, r, MetOf(M, r)) : r \in Boundary(M)}
 MetRows(M, sol, rng, m) == {SummaryRow(M, sol, rng, r, m) : r \in {k \in RIdx(M) : M.S[k][m] # 0}}
+\* objective value shown by a model summary: current coefficients c at the solution's fluxes; `carried` is
+\* the objective_value attribute of the Solution object (negative control: it is trusted)
+ShownObjective(c, sol, carried) == IF Bug = "summary_trusts_objective_value" THEN carried ELSE Dot(c, sol)
 SumFlux(rows) == LET RECURSIVE go(_) go(R) == IF R = {} THEN 0 ELSE LET x == CHOOSE y \in R : TRUE IN Abs(x.flux) + go(R \ {x}) IN go(rows)
 
 \* =========================================================================
